@@ -382,10 +382,9 @@ def withdrawLiquidity (s : PmState) (env : PmEnv) (sender : Addr) (funds : List 
   let total := env.supply lp
   let ratio ← orPanic (decFromRatio U256_MAX amount total)
   if ratio > ONE18 then .error .invalidInput
+  -- ⌊reserve · amount / total_shares⌋ (`checked_multiply_ratio`; the F-02 fix)
   let refunds ← pool.assets.mapM fun a => do
-    let a18 ← fit U256_MAX (a.amount * ONE18) .panic
-    let p ← decMul U256_MAX a18 ratio
-    let r ← fit U128_MAX (decFloor p)
+    let r ← mulRatio U128_MAX a.amount amount total
     pure (⟨a.denom, r⟩ : Coin)
   let refunds := refunds.filter (·.amount > 0)
   let assets' ← refunds.foldlM (fun as r => do
